@@ -446,6 +446,44 @@ def gen_profile_case(rng):
 
 
 # ---------------------------------------------------------------------------------------------
+# wide corpora: thousands of distinct contexts at one order, so that every intermediate stream between the stages (gamma
+# records, n-gram streams, sorts) is many fixed-size buffers long.  Judged by the Python oracle and the file oracle only:
+# the extracted Coq model is quadratic and is not run on them.
+def gen_wide_case(rng, kind=None):
+    types = rng.range(500, 900)
+    vocab = [b"x%d" % i for i in range(types)]
+    order = rng.choice([3, 3, 4])
+    sents, bigrams = [], set()
+    while len(bigrams) < rng.range(6500, 9000) or len(sents) < 800:
+        ln = rng.range(2, 8)
+        s = [vocab[zipf_pick(rng, types, 0) if rng.chance(2, 3) else rng.below(min(types, 60))] for _ in range(ln)]
+        sents.append(s)
+        for a, b in zip([b"<s>"] + s, s):
+            bigrams.add((a, b))
+        if len(sents) > 6000:
+            break
+    kind = kind or rng.choice(["limit", "limit-few", "step", "limit+step", "uniform", "plain"])
+    prune = limit = None
+    if "limit" in kind:
+        # either a quarter of the word types is excluded, or only a handful (then nearly every context is still looked up)
+        if kind.startswith("limit-few") or rng.chance(1, 2):
+            drop = {rng.below(types) for _ in range(rng.range(1, 5))}
+            limit = [w for i, w in enumerate(vocab) if i not in drop]
+        else:
+            limit = [w for w in vocab if rng.chance(3, 4)]
+    if "step" in kind:
+        # thresholds 0 for orders 1..z, positive from order z+1 on; z = 2 puts the step where the wide stream (bigram contexts) is
+        z = 2 if rng.chance(3, 4) else rng.range(1, order - 1)
+        prune = [0] * z + [rng.range(1, 2)] * rng.range(1, order - z)
+    elif kind == "uniform":
+        prune = [0] + [1] * rng.range(1, order - 1) if rng.chance(1, 2) else [1]
+    return Case(render(rng, sents, plain=True), order, prune, limit, interp=not rng.chance(1, 4), fallback=[],
+                renumber=rng.chance(1, 4), mem=None if rng.chance(2, 3) else ["-S", "250K", "--sort_block", "4K", "--minimum_block", "256b",
+                                                                           "--block_count", "2", "--vocab_estimate", "1000"],
+                tag="gen:wide:" + kind)
+
+
+# ---------------------------------------------------------------------------------------------
 # running lmplz
 class Run:
     pass
@@ -676,7 +714,7 @@ def parse_model(out):
 
 # ---------------------------------------------------------------------------------------------
 # independent oracle: interpolated modified Kneser-Ney over Fractions, from the property text
-def kn_oracle(ids, order, prune, allowed, interp, fallback):
+def kn_oracle(ids, order, prune, allowed, interp, fallback, force_closed=None):
     """ids: sentences of word ids (specials already removed).  prune: padded thresholds (len = order).  allowed: set of
     ids or None.  fallback: 3 Fractions or None.
     -> ('refused', k) or ('built', counts, discounts, {k: {gram(natural tuple): (prob, backoff)}})"""
@@ -715,7 +753,11 @@ def kn_oracle(ids, order, prune, allowed, interp, fallback):
         if n[1] and n[2] and n[3]:
             y = Fraction(n[1], n[1] + 2 * n[2])
             d = [j - (j + 1) * y * Fraction(n[j + 1], n[j]) for j in (1, 2, 3)]
-            if any(d[j - 1] < 0 or d[j - 1] > j for j in (1, 2, 3)):
+            if force_closed is not None:
+                # the range test is taken from float32 arithmetic (it disagrees with the exact test on this order's boundary)
+                if not force_closed[k - 1]:
+                    d = None
+            elif any(d[j - 1] < 0 or d[j - 1] > j for j in (1, 2, 3)):
                 d = None
         if d is None:
             if fallback is None:
